@@ -1,0 +1,31 @@
+//go:build verif
+// +build verif
+
+package seqio
+
+// Contracts for package seqio, read by /verif/gvc.  Compiled only with the build
+// tag "verif"; adds no code to the package.
+
+// ---------------------------------------------------------------------------
+// origin.go (C16).  Layout of an ORIGIN block, stated independently of the code:
+// residue k (0-based) sits at byte opos(k); a block of n residues has olen(n) bytes.
+// Each line is a 9-column index, then up to six groups " " + ten residues, then "\n".
+
+//@ spec func opos(k int) int = 76*(k/60) + 10 + 11*((k%60)/10) + k%10
+//@ spec func olen(n int) int = ite(n == 0, 0, opos(n-1) + 2)
+
+//@ func toOriginLength(length int) (r int)
+//@   prop C16 C07
+//@   requires 0 <= length && length <= 1099511627776
+//@   ensures r == olen(length)
+
+//@ func fromOriginLength(length int) (r int)
+//@   prop C16
+//@   requires 0 <= length && length <= 1099511627776
+//@   ensures forall n: 0 <= n && length == olen(n) ==> r == n
+
+// olen is strictly increasing, so a block length determines the residue count.
+//@ lemma olenMonotone(a, b int)
+//@   prop C16
+//@   requires 0 <= a && a < b
+//@   ensures olen(a) < olen(b)
